@@ -72,6 +72,8 @@ func verifScopeFrame(pf *FProtocolFactory, op string, body, hdr string) []byte {
 
 func VerifC07_NatsPubSub() {
 	b := newVerifBroker()
+	// the publisher is another process: its messages are routed to the subscriber only once the server knows the SUB
+	b.lazySub, b.foreignPublisher = true, true
 	pf := NewFProtocolFactory(thrift.NewTBinaryProtocolFactoryDefault())
 	conn := &nats.Conn{}
 	var log []verifDelivery
